@@ -155,8 +155,12 @@ func (m *FlowMon) OnEvent(c *eng.Ctx, ms eng.MState, ev *eng.Event) eng.MState {
 		default:
 			if m.hookCall(s, ev, T) {
 				// an optional function-typed field of the flow (observer / hook) called with nodes of the
-				// path only: user code, not a node
+				// path only: user code, not a node; it may cancel the context, so what was observed
+				// before it is stale
 				chk("C03.R4", "hook-call", true, "")
+				if !s.cut {
+					s.obs = nil
+				}
 				break
 			}
 			if strings.HasPrefix(ev.Class, "cb:") || strings.HasPrefix(ev.Class, "dyn:") || strings.HasPrefix(ev.Class, "field:") || strings.HasPrefix(ev.Class, "invoke:") {
